@@ -10,37 +10,66 @@ class C03(CoreProp):
     id = "C03"
     prop_module = "Props.C03"
     prop_file = "Props/C03.v"
+    engine = "C03"               # harness/c03.go: the TC runner with a small stack limit
     coq_targets = ["Props/C03.vo", "Run/Judge_Core.vo", "Props/Tables.vo"]
-    sizes = {"quick": 350, "thorough": 10000}
+    sizes = {"quick": 450, "thorough": 3000}
     shard = 24
     design_ref = "DESIGN.md section 6/C03"
-    rule = ("1-4 mixin definitions (0-3 parameters; bodies printing parameters, page data, attributes.<name>, caller-local "
-            "names (which must be invisible), placing `block` 0, 1 or 2 times, inside a loop of the body, and forwarding it to "
-            "another mixin through that call's own block) and a main part calling them repeatedly: in each-loops with a block "
-            "that reads the loop variable and caller locals that change between calls, nested calls inside blocks, bounded "
-            "recursion driven by a counter argument with the block forwarded through every level, missing and surplus "
-            "arguments, attributes on calls (also spread onto a tag with &attributes); rendered with two data values; "
+    rule = ("three streams.  GENERAL (45 %): 1-4 mixin definitions (0-3 parameters; bodies printing parameters, page data, "
+            "attributes.<name>, caller-local names (which must be invisible), placing `block` 0, 1 or 2 times, inside a loop of "
+            "the body, and forwarding it to another mixin through that call's own block - alone or among other nodes) and a main "
+            "part calling them repeatedly: in each-loops with a block that reads the loop variable and caller locals that change "
+            "between calls, nested calls inside blocks, bounded recursion driven by a counter argument with the block forwarded "
+            "through every level, missing and surplus arguments, attributes on calls (also spread onto a tag with &attributes).  "
+            "SHAPES (30 %): call-site shapes inside a recursive mixin (recursion direct or through a trampoline mixin, depth 1-4 "
+            "or data driven): its body holds IN RANDOM ORDER a guarded recursive call whose block content reads the mixin's own "
+            "parameters / a body-local variable (alone, next to `block`, inside a further call, only `block`, or empty), one or two "
+            "forwarding calls to box mixins (block content only `block`; `block` among other nodes; forwarding again inside the "
+            "forwarded block, i.e. pure forwarding at every level; boxes that forward to other boxes), direct placements of "
+            "`block`, prints, and calls without block content of a probe mixin that tests `block`; called from the main part "
+            "with blocks reading caller locals / loop variables, with calls of the same recursive mixin inside the block, "
+            "without block, and in loops.  ATTRSTATE (25 %): 1-3 mixins whose bodies ASSIGN into their attributes object "
+            "(`- attributes.k = e`: always, depending on an argument, depending on page data) and read it back before and "
+            "after (attributes.k printed / tested, &attributes(attributes) on a tag), nested calls made after storing, and mixins "
+            "that only read; the main part calls them 2-7 times in one render with and without attributes, with different, "
+            "falsy and missing arguments, in loops and branches; the second data value of the case flips the page data the "
+            "bodies depend on.  EVERY case is rendered with two data values, one after the other on fresh engines in ONE "
+            "harness process of its own (so state kept at package level survives from the first render into the second, and "
+            "a failing case is a complete replay); a process that exceeds 12 s / 3 GB / 64 MB of stack is class 'crash'.  "
             "non-trivial = at least one call with a non-empty block or at least two calls of one mixin; distinct by SHA-1")
     trusted = [
-        "M = Pug/Compile.v (transform_mixin.go: define mixin_<n> prologue, __freeze + template call, block_<n>_<k> numbering), "
-        "Tmpl/Exec.v (walkTemplate after repair 40255c5: latest binding of the block name made by a shallower frame, binding "
-        "kept; callee frame = globals only; __freeze), Tmpl/Runtime.v (__op__map_params, __tryindex): hand-written model "
-        "compared with the real engine on every case",
+        "M = Pug/Compile.v (transform_mixin.go: define mixin_<n> prologue, __freeze + template call for EVERY call with block "
+        "content, block_<n>_<k> numbering), Tmpl/Exec.v (walkTemplate after repair 40255c5: latest binding of the block name "
+        "made by a shallower frame, binding kept; callee frame = globals only; __freeze), Tmpl/Runtime.v (__op__map_params "
+        "allocating a new Map per call, Map.__assign, Keys memoisation, __tryindex): hand-written model compared with the real "
+        "engine on every case",
         "S = Spec/Sem.v: closure semantics (a call evaluates arguments and attributes in the caller's environment; the body "
-        "sees page data, parameters, attributes and block = closure over the caller's environment and the caller's own block)",
+        "sees page data, parameters, a freshly allocated attributes object and block = closure over the caller's environment "
+        "and the caller's own block; `- attributes.k = e` updates that object only)",
+        "each case runs in its own harness process (gen/c03.py run): state surviving between CASES is not explored, state "
+        "surviving between the two renders and the many calls of one case is",
     ]
     assumptions = [
         "blocks only read caller variables (in-place writes from block content go through a Go slice shared with the caller "
         "frame; not modelled, not generated)",
         "argument / attribute expressions are in the C01 core subset and domain; mixins are defined once, before use",
         "a loop variable is not read after its loop (the engine keeps the last element, pug scopes it to the loop: F-C02-f)",
+        "`block` as a VALUE is only tested in mixins that are never given block content (S has no value for a given block: "
+        "pug's is a function, the engine's a block name; both are truthy)",
+        "bodies that spread `attributes` assign only names that sort after every name given at a call site, in sorted order "
+        "(S keeps insertion order, Map.Keys sorts an unordered map on first use: the same sequence under this restriction); "
+        "bodies that read by name assign any name; `attributes` is not iterated with each (objects grown by assignment: "
+        "finding class fl_obj_grown of C02)",
+        "the two renders of a case are sequential; concurrent renders sharing state are C08/C14's subject",
     ]
     not_yet_proved = [
         "C03_program: exec (parse (compile p)) = Spec.Sem.sem_run p for all programs with mixins (closure semantics) as ONE "
         "theorem: proved are the frame discipline of the executor for every program (only the executing frame changes; a "
         "call leaves exactly the frames it found; bindings survive calls), what a mixin body sees, where a block runs, the "
-        "lookup rules for repeated / nested / recursive calls, positional parameters; their composition with Pug/Compile.v "
-        "(the __freeze / template lowering) and Spec/Sem.v rests on the correspondence run, judged against BOTH M and S",
+        "lookup rules for repeated / nested / recursive calls, positional parameters, freshness of the attributes object of "
+        "every call (M's heap), and that a pure-forwarding call site is lowered with a wrapper block of its own; their "
+        "composition with the rest of Pug/Compile.v (the __freeze / template lowering of arbitrary block content) and "
+        "Spec/Sem.v rests on the correspondence run, judged against BOTH M and S",
     ]
 
     # ---------------------------------------------------------------- generation
@@ -79,7 +108,9 @@ class C03(CoreProp):
                         for _ in range(rng.choice([cp, cp, max(0, cp - 1), cp + 1]))]
                 # forward our own block through the inner call's block, or give it a fresh one, or none
                 kk = rng.random()
-                if kk < 0.45:
+                if kk < 0.2:
+                    blk = [('mixinblock',)]            # nothing but the own block
+                elif kk < 0.45:
                     blk = [('text', b"{"), ('mixinblock',), ('text', b"}")]
                 elif kk < 0.7:
                     blk = [('text', b"in:"), ('code', [('expr', ('id', rng.choice(params)))], True, True)] if params else [('text', b"in")]
@@ -92,9 +123,29 @@ class C03(CoreProp):
                 out.extend(g.nodes(env, 1, 1, BODY_KINDS))
         return out
 
+    # three streams (shares of the run): general 45 %, call-site shapes 30 %, attribute-object state 25 %
+    STREAMS = (("general", 0.45), ("shapes", 0.30), ("attrstate", 0.25))
+    only_stream = None
+
     def generate(self, rng, n, tier):
         cases = []
         for i in range(n):
+            k = rng.random()
+            stream = "general"
+            acc = 0.0
+            for name, share in self.STREAMS:
+                acc += share
+                if k < acc:
+                    stream = name
+                    break
+            if self.only_stream:
+                stream = self.only_stream
+            if stream == "shapes":
+                cases.append(self.gen_shapes(rng))
+                continue
+            if stream == "attrstate":
+                cases.append(self.gen_attrstate(rng))
+                continue
             g = tgen.TGen(rng, offdomain=0.0, max_depth=2)
             data, genv = g.data()
             nodes = []
@@ -184,8 +235,456 @@ class C03(CoreProp):
                     nodes.extend(g.nodes(env, 1, 1, BODY_KINDS))
             d2, _ = g.data()
             d2 = {k: d2.get(k, v) for k, v in data.items()}
-            cases.append({"nodes": ser(nodes), "datas": [ser(data), ser(d2)]})
+            cases.append({"nodes": ser(nodes), "datas": [ser(data), ser(d2)], "stream": "general"})
         return cases
+
+    # ---------------------------------------------------------------- stream "shapes"
+    # Call-site shapes inside recursive mixins.  The lowering gives every call site ONE block name and the
+    # executor resolves a placed block by name, so what a call shows depends on which other call sites of the
+    # same frame have already bound their block: a recursive mixin (direct, or through a trampoline mixin) whose
+    # body holds, in random order, a recursive call with block content that reads the mixin's own parameters /
+    # variables, forwarding calls to other mixins (block content = nothing but `block`, or `block` among other
+    # nodes, also forwarding again inside the forwarded block), direct placements of `block`, and prints.
+    def gen_shapes(self, rng):
+        g = tgen.TGen(rng, offdomain=0.0, max_depth=1)
+        data, genv = g.data()
+        P = lambda e, esc=True: ('code', [('expr', e)], esc, True)
+        T = lambda s: ('text', s)
+        BLK = ('mixinblock',)
+        nodes = []
+        # --- box mixins: they place the block they are given (once or twice), some print a parameter around it
+        boxes = []
+        for bi in range(rng.choice([1, 2, 2, 3])):
+            name = b"bx%d" % (bi + 1)
+            params = [b"t"] if rng.random() < 0.4 else []
+            k = rng.random()
+            if k < 0.45:
+                body = [('tag', rng.choice(tgen.TAGS), rng.random() < 0.5, [], [], [BLK])]
+            elif k < 0.65:
+                body = [T(b"["), BLK, T(b"]")]
+            elif k < 0.8:
+                body = [BLK, T(b"|"), BLK]
+            else:
+                body = [BLK]
+            if params:
+                body.insert(rng.choice([0, len(body)]), P(('id', b"t")))
+            if boxes and rng.random() < 0.35:
+                # a box that forwards on to an earlier box
+                inner = rng.choice(boxes)
+                fb = [BLK] if rng.random() < 0.6 else [T(b"<"), BLK, T(b">")]
+                body = [('call', inner[0], [g.lit('str')] if inner[1] else [], [], fb)] + ([T(b".")] if rng.random() < 0.5 else [])
+                if params:
+                    body.append(P(('id', b"t")))
+            nodes.append(('mixin', name, params, body))
+            boxes.append((name, params))
+        # --- probe: tells whether it was given a block; only ever called without block content
+        probe = rng.random() < 0.35
+        if probe:
+            nodes.append(('mixin', b"pb", [b"a"],
+                          [('cond', ('id', b"block"), [T(b"B+"), BLK], ('block', [T(b"B-"), P(('id', b"a"))])), BLK]))
+
+        def box_call(blk, argsrc):
+            bn, bp = rng.choice(boxes)
+            return ('call', bn, [argsrc()] if bp else [], [], blk)
+
+        # --- the recursive mixin
+        rparams = [b"n"] + ([b"a"] if rng.random() < 0.6 else [])
+        own = [('id', b"n")] + ([('id', b"a")] if len(rparams) > 1 else [])
+        body_head = []
+        if rng.random() < 0.4:
+            body_head.append(('code', [('vars', [('var', b"w", ('bin', rng.choice(['*', '+']), ('id', b"n"), ('num', rng.choice([2, 10]))))])], False, False))
+            own.append(('id', b"w"))
+        rd = lambda: rng.choice(own)
+        via = rng.random() < 0.3            # recursion through a trampoline mixin
+
+        def reads(k):
+            out = []
+            for _ in range(k):
+                if rng.random() < 0.5:
+                    out.append(('tag', rng.choice([b"b", b"i", b"em"]), True, [], [], [P(rd())]))
+                else:
+                    out.append(P(rd()))
+            return out
+
+        def rec_block():
+            """block content of the recursive call"""
+            k = rng.random()
+            if k < 0.40:
+                return reads(rng.choice([1, 1, 2]))
+            if k < 0.55:
+                b = reads(1) + [BLK]
+                rng.shuffle(b)
+                return b
+            if k < 0.67:
+                return [BLK]
+            if k < 0.82:
+                # the block content itself calls a mixin
+                inner = rng.choice([reads(1), [BLK], reads(1) + [BLK]])
+                return [box_call(inner, rd)] + (reads(1) if rng.random() < 0.5 else [])
+            if k < 0.9:
+                return [T(b"("), BLK, T(b")")]
+            return []
+
+        def forward_block():
+            """block content of a forwarding call"""
+            k = rng.random()
+            if k < 0.5:
+                return [BLK]
+            if k < 0.65:
+                return [box_call([BLK], rd)]            # pure forwarding at two levels
+            if k < 0.8:
+                b = [BLK] + reads(1)
+                rng.shuffle(b)
+                return b
+            if k < 0.9:
+                return [T(b"{"), BLK, T(b"}")]
+            return reads(1)
+
+        def rec_call():
+            nxt = ('bin', '-', ('id', b"n"), ('num', 1))
+            args = [nxt]
+            if len(rparams) > 1:
+                args.append(rng.choice([('id', b"a"), ('bin', '+', ('id', b"a"), ('str', b"'")), ('id', b"a"), g.lit('str')]))   # `a` stays a string
+            elif rng.random() < 0.15:
+                args.append(g.lit('str'))           # surplus argument
+            attrs = [(b"k", rd(), True)] if rng.random() < 0.2 else []
+            c = ('call', b"tr" if via else b"rc", args, attrs, rec_block())
+            alt = None
+            if rng.random() < 0.25:
+                alt = ('block', [rng.choice([BLK, T(b"end"), box_call([BLK], rd)])])
+            return ('cond', ('bin', '>', ('id', b"n"), ('num', 0)), [c], alt)
+
+        elems = [rec_call()]
+        if rng.random() < 0.15:
+            elems.append(rec_call())
+        # the output grows like fan^depth: two recursive calls, or boxes that place their block twice, get depth <= 2
+        wide = len(elems) > 1 or any(n[0] == 'mixin' and n[3].count(BLK) > 1 for n in nodes)
+        depths = [1, 1, 2, 2] if wide else [1, 2, 2, 3, 3, 4]
+        for _ in range(rng.choice([1, 1, 1, 2])):
+            elems.append(box_call(forward_block(), rd))
+        for _ in range(rng.choice([0, 1, 1, 2])):
+            k = rng.random()
+            if k < 0.4:
+                elems.append(('tag', rng.choice([b"i", b"u", b"s"]), True, [], [], [P(rd())]))
+            elif k < 0.7:
+                elems.append(BLK)
+            elif k < 0.85:
+                elems.append(P(('dot', ('id', b"attributes"), b"k")))
+            elif probe:
+                elems.append(('call', b"pb", [rd()], [], []))
+            else:
+                elems.append(T(b";"))
+        rng.shuffle(elems)
+        nodes.append(('mixin', b"rc", rparams, body_head + elems))
+        if via:
+            tparams = [b"x"] + ([b"y"] if len(rparams) > 1 else [])
+            targs = [('id', p) for p in tparams]
+            fb = rng.choice([[BLK], [BLK], [T(b"/"), BLK], [BLK, P(('id', b"x"))]])
+            tbody = [('call', b"rc", targs, [], fb)]
+            if rng.random() < 0.4:
+                tbody.insert(rng.choice([0, 1]), box_call([BLK], lambda: ('id', b"x")))
+            nodes.append(('mixin', b"tr", tparams, tbody))
+        # --- main part
+        env = genv.copy()
+        nodes.append(('code', [('vars', [('var', b"v1", g.lit('str'))])], False, False))
+        env.types[b"v1"] = 'str'
+
+        def top_call(env, depth):
+            args = [('num', min(rng.choice(depths), 2 + 2 * depth))]       # a call inside a block: depth <= 2
+            if rng.random() < 0.12 and not wide and depth > 0:
+                args = [('dot', ('id', b"xs"), b"length")]               # data driven: 0..5 levels
+            if len(rparams) > 1 and rng.random() < 0.85:
+                args.append(g.expr(env, 'str', rng.choice([0, 0, 1])))
+            k = rng.random()
+            if k < 0.5:
+                loc = [x for x in env.types if x.startswith((b"v", b"it")) and env.types[x] in ('num', 'str')]
+                blk = [rng.choice([T(b"top"), P(('id', rng.choice(loc))), ('tag', b"q", True, [], [], [P(('id', rng.choice(loc)))])])]
+            elif k < 0.65 and depth > 0:
+                blk = [top_call(env, depth - 1)]
+            elif k < 0.8:
+                blk = [box_call([T(b"T")], lambda: g.lit('str'))]
+            else:
+                blk = []
+            attrs = [(b"k", g.expr(env, 'str', 0), True)] if rng.random() < 0.25 else []
+            return ('call', b"rc", args, attrs, blk)
+
+        for _ in range(rng.choice([1, 1, 2, 3])):
+            k = rng.random()
+            if k < 0.6:
+                nodes.append(top_call(env, 1))
+            elif k < 0.8:
+                it = g.fresh(b"it")
+                inner = env.copy()
+                inner.types[it] = 'num'
+                nodes.append(('each', it, None, rng.choice([('id', b"xs"), ('arr', [('num', 1), ('num', 2)])]), [top_call(inner, 0)]))
+            elif k < 0.9:
+                nodes.append(('code', [('expr', ('assign', ('id', b"v1"), g.lit('str')))], False, False))
+                nodes.append(top_call(env, 0))
+            elif probe:
+                nodes.append(('call', b"pb", [g.lit('str')], [], []))
+            else:
+                nodes.append(box_call([T(b"plain"), P(('id', b"v1"))], lambda: g.lit('str')))
+        d2, _ = g.data()
+        d2 = {k: d2.get(k, v) for k, v in data.items()}
+        return {"nodes": ser(nodes), "datas": [ser(data), ser(d2)], "stream": "shapes"}
+
+    # ---------------------------------------------------------------- stream "attrstate"
+    # The attributes object of a call is that call's own: mixin bodies ASSIGN into it (`- attributes.k = e`,
+    # unconditionally or depending on a parameter / on page data) and read it back (attributes.k, &attributes on a
+    # tag) before and after; the main part calls these mixins several times in one render, with and without
+    # attributes and with different arguments, next to mixins that only read.  Nothing a body stored may show in
+    # another call, in a nested call, or in the second render of the case (same process).
+    def gen_attrstate(self, rng):
+        g = tgen.TGen(rng, offdomain=0.0, max_depth=1)
+        data, genv = g.data()
+        P = lambda e, esc=True: ('code', [('expr', e)], esc, True)
+        T = lambda s: ('text', s)
+        AT = lambda k: ('dot', ('id', b"attributes"), k)
+        CALLKEYS = [b"id", b"k"]                 # names given at call sites
+        SETKEYS = [b"title", b"type"]            # names assigned by bodies that also spread (they sort after CALLKEYS)
+        nodes = []
+        mixins = []                              # (name, nparams, writes)
+
+        def show(spread_ok):
+            k = rng.random()
+            if k < 0.35 and spread_ok:
+                return ('tag', rng.choice([b"span", b"a", b"li"]), True, [], [b"attributes"], [T(b"s")])
+            key = rng.choice(CALLKEYS + SETKEYS)
+            if k < 0.7:
+                return ('tag', rng.choice([b"em", b"b"]), True, [], [], [P(AT(key))])
+            if k < 0.85:
+                return ('cond', AT(key), [T(b"+" + key)], ('block', [T(b"-" + key)]))
+            return P(AT(key))
+
+        for mi in range(rng.choice([1, 2, 2, 3])):
+            name = b"f%d" % (mi + 1)
+            np_ = rng.choice([1, 2, 2])
+            params = [b"p%d" % (j + 1) for j in range(np_)]
+            writes = mi == 0 or rng.random() < 0.6
+            body = []
+            spread = rng.random() < 0.6
+            if rng.random() < 0.5:
+                body.append(show(spread))            # a read BEFORE anything is stored
+            if writes:
+                keys = sorted(rng.sample(SETKEYS, rng.choice([1, 1, 2]))) if spread else rng.sample(CALLKEYS + SETKEYS, rng.choice([1, 2]))
+                for key in keys:
+                    val = rng.choice([('id', params[0]), ('bin', '+', ('str', b"w-"), ('id', params[0])), g.lit('str'), ('id', params[-1])])
+                    st = ('code', [('expr', ('assign', AT(key), val))], False, False)
+                    k = rng.random()
+                    if k < 0.3:
+                        body.append(st)
+                    elif k < 0.6:
+                        body.append(('cond', ('id', params[-1]), [st], None))                       # depends on an argument
+                    elif k < 0.85:
+                        body.append(('cond', ('id', rng.choice([b"p", b"p", b"s", b"n"])), [st], None))  # depends on page data
+                    else:
+                        body.append(('cond', ('bin', '==', ('id', params[0]), g.lit('str')), [st], ('block', [T(b"~")])))
+            if mixins and rng.random() < 0.5:
+                # a nested call, with or without attributes of its own, after this body stored something
+                cn, cp, _ = rng.choice(mixins)
+                cargs = [('id', rng.choice(params)) for _ in range(rng.choice([cp, cp, max(0, cp - 1)]))]
+                cattrs = [(rng.choice(CALLKEYS), ('id', params[0]), True)] if rng.random() < 0.3 else []
+                body.append(('call', cn, cargs, cattrs, []))
+            for _ in range(rng.choice([1, 2])):
+                body.append(show(spread))
+            body.append(P(('id', params[0])))
+            nodes.append(('mixin', name, params, body))
+            mixins.append((name, np_, writes))
+        env = genv.copy()
+
+        def call(env, arg0=None):
+            name, np_, _ = rng.choice(mixins)
+            k = rng.choice([np_, np_, np_, max(0, np_ - 1)])
+            args = []
+            for j in range(k):
+                r = rng.random()
+                if j == 0 and arg0 is not None and r < 0.6:
+                    args.append(arg0)
+                elif r < 0.5:
+                    args.append(g.lit('str'))
+                elif r < 0.7:
+                    args.append(rng.choice([('str', b""), ('num', 0), ('bool', False), ('num', 1), ('bool', True)]))
+                else:
+                    args.append(g.expr(env, 'str', 0))
+            attrs = []
+            if rng.random() < 0.35:
+                for an in rng.sample(CALLKEYS, rng.choice([1, 1, 2])):
+                    attrs.append((an, g.expr(env, 'str', 0), True))
+            return ('call', name, args, attrs, [])
+
+        for _ in range(rng.choice([2, 3, 3, 4, 5])):
+            k = rng.random()
+            if k < 0.7:
+                nodes.append(call(env))
+            elif k < 0.85:
+                it = g.fresh(b"it")
+                inner = env.copy()
+                coll = rng.choice([('id', b"ws"), ('arr', [('str', b"a"), ('str', b""), ('str', b"c")])])
+                inner.types[it] = 'str'
+                nodes.append(('each', it, None, coll, [call(inner, ('id', it))]))
+            else:
+                nodes.append(('cond', ('id', rng.choice([b"p", b"s"])), [call(env)], ('block', [call(env)])))
+        d2, _ = g.data()
+        d2 = {k: d2.get(k, v) for k, v in data.items()}
+        r = rng.random()
+        if r < 0.5:
+            # the second render takes the other branches
+            d2[b"p"] = not data[b"p"]
+            if rng.random() < 0.5:
+                d2[b"s"] = b"" if data[b"s"] else b"x"
+                d2[b"n"] = 0 if data[b"n"] else 1
+        elif r < 0.7:
+            data[b"p"], d2[b"p"] = True, False
+            data[b"s"], d2[b"s"] = b"on", b""
+            data[b"n"], d2[b"n"] = 7, 0
+        return {"nodes": ser(nodes), "datas": [ser(data), ser(d2)], "stream": "attrstate"}
+
+    # ---------------------------------------------------------------- running
+    CASE_TIMEOUT_S = 12
+    CASE_MEM_BYTES = 3 << 30
+    OUT_CAP = 100000             # bytes of one render kept (the generator bounds recursion fan-out and depth: outputs stay below 10 kB)
+
+    def run(self, binary, cases, tmp, tier):
+        """every case in a harness process of its own (8 at a time): whatever state the package keeps between
+        renders can only come from the case's own two renders, so a failing case is its own, complete replay.
+        A process that does not end in 12 s or outgrows 3 GB of address space (a broken frame discipline can make
+        a render recurse without end) is killed and observed as class 'crash'
+        (runner C03 = TC with a 64 MB goroutine stack limit, harness/c03.go)."""
+        import json
+        import resource
+        import subprocess
+        from concurrent.futures import ThreadPoolExecutor
+
+        def limit():
+            resource.setrlimit(resource.RLIMIT_AS, (self.CASE_MEM_BYTES, self.CASE_MEM_BYTES))
+
+        def one(case):
+            crash = {"prod": {"load": "crash", "code": "", "res": []}, "debug": None}
+            try:
+                p = subprocess.run([binary, self.engine], input=json.dumps([self.harness_case(case)]).encode(),
+                                   capture_output=True, timeout=self.CASE_TIMEOUT_S, preexec_fn=limit)
+            except subprocess.TimeoutExpired:
+                return crash
+            if p.returncode != 0:
+                return crash
+            o = json.loads(p.stdout)[0]
+            for r in o["prod"].get("res") or []:
+                if len(r.get("out", "")) > 2 * self.OUT_CAP:      # hex: an output that long is wrong anyway
+                    r["out"] = r["out"][:2 * self.OUT_CAP]
+            return o
+
+        with ThreadPoolExecutor(max_workers=8) as ex:
+            return list(ex.map(one, cases))
+
+    # ---------------------------------------------------------------- shrinking
+    @staticmethod
+    def terminating(nodes):
+        """every cycle of the mixin call graph goes through a call that stands under `if p > k` (k >= 0, p the first
+        parameter of the enclosing mixin) and passes `p - 1` first: what the generator produces, and what a shrinking
+        step must keep (dropping the guard or the decrement makes a template that never ends, for pug as well)"""
+        defs = {}
+        for n in nodes:
+            if n[0] == 'mixin':
+                defs[n[1]] = n
+        edges = {name: set() for name in defs}
+
+        def walk(ns, owner, p0, guarded):
+            for n in ns:
+                if not isinstance(n, tuple) or not n:
+                    continue
+                k = n[0]
+                if k == 'call':
+                    dec = guarded and n[2] and n[2][0] == ('bin', '-', ('id', p0), ('num', 1))
+                    if not dec:
+                        edges[owner].add(n[1])
+                    walk(n[4], owner, p0, guarded)
+                elif k == 'cond':
+                    t = n[1]
+                    g = (isinstance(t, tuple) and len(t) == 4 and t[0] == 'bin' and t[1] == '>' and t[2] == ('id', p0)
+                         and t[3][0] == 'num' and t[3][1] >= 0)
+                    walk(n[2], owner, p0, guarded or g)
+                    if n[3] is not None:
+                        walk([n[3]], owner, p0, guarded)
+                elif k == 'block':
+                    walk(n[1], owner, p0, guarded)
+                elif k == 'tag':
+                    walk(n[5], owner, p0, guarded)
+                elif k == 'each':
+                    walk(n[4], owner, p0, guarded)
+                elif k == 'while':
+                    walk(n[2], owner, p0, guarded)
+                elif k == 'case':
+                    for _, body in n[2]:
+                        walk(body, owner, p0, guarded)
+
+        for name, d in defs.items():
+            walk(d[3], name, d[2][0] if d[2] else None, False)
+        state = {}
+
+        def cyclic(v):
+            if state.get(v) == 1:
+                return True
+            if state.get(v) == 2 or v not in edges:
+                return False
+            state[v] = 1
+            for w in edges[v]:
+                if cyclic(w):
+                    return True
+            state[v] = 2
+            return False
+        return not any(cyclic(v) for v in list(edges))
+
+    def shrink(self, case):
+        nodes = de(case["nodes"])
+        cands = []
+
+        # fewer recursion levels: a literal first argument of a call outside the mixin definitions, lowered by one
+        def lower(ns):
+            for i, n in enumerate(ns):
+                if n[0] == 'call':
+                    if n[2] and n[2][0][0] == 'num' and n[2][0][1] >= 2:
+                        yield ns[:i] + [n[:2] + ([('num', n[2][0][1] - 1)] + n[2][1:],) + n[3:]] + ns[i + 1:]
+                    for b in lower(n[4]):
+                        yield ns[:i] + [n[:4] + (b,)] + ns[i + 1:]
+                elif n[0] == 'each':
+                    for b in lower(n[4]):
+                        yield ns[:i] + [n[:4] + (b,)] + ns[i + 1:]
+        # a mixin definition together with every call of it
+        def without(ns, name):
+            out = []
+            for n in ns:
+                if n[0] in ('mixin', 'call') and n[1] == name:
+                    continue
+                if n[0] == 'mixin':
+                    n = n[:3] + (without(n[3], name),)
+                elif n[0] == 'call':
+                    n = n[:4] + (without(n[4], name),)
+                elif n[0] == 'tag':
+                    n = n[:5] + (without(n[5], name),)
+                elif n[0] == 'each':
+                    n = n[:4] + (without(n[4], name),)
+                elif n[0] == 'cond':
+                    n = (n[0], n[1], without(n[2], name), None if n[3] is None else without([n[3]], name)[0] if without([n[3]], name) else None)
+                elif n[0] == 'block':
+                    n = ('block', without(n[1], name))
+                out.append(n)
+            return out
+        for n in nodes:
+            if n[0] == 'mixin':
+                cands.append(dict(case, nodes=ser(without(nodes, n[1]))))
+        for c in lower(nodes):
+            cands.append(dict(case, nodes=ser(c)))
+        cands += list(super().shrink(case))
+        return [c for c in cands if self.terminating(de(c["nodes"]))]
+
+    def distribution(self, cases, obss):
+        d = super().distribution(cases, obss)
+        streams = {}
+        for c in cases:
+            s = c.get("stream", "corpus")
+            streams[s] = streams.get(s, 0) + 1
+        d["streams"] = streams
+        return d
 
     def nontrivial(self, case, obs):
         nodes = de(case["nodes"])
